@@ -448,6 +448,7 @@ func genDkgLib(rng *hx.Rng, tier string, w *hx.Writer, prop string) error {
 		{"crafted-commitments-zero-share", func(s *dkgSess, b int) dkgHooks { return craftedCommitments(s, b, true) }},
 		{"equivocation-honest-sids", func(s *dkgSess, b int) dkgHooks { return equivocate(s, b, false) }},
 		{"equivocation-crossed-sids", func(s *dkgSess, b int) dkgHooks { return equivocate(s, b, true) }},
+		{"surplus-equivocation", func(s *dkgSess, b int) dkgHooks { return surplusEquivocation(s, b) }},
 		{"wrong-threshold", func(s *dkgSess, b int) dkgHooks {
 			badT := []int{0, 1, s.n + 1}[s.rng.Intn(3)]
 			return dkgHooks{deal: func(i, j int) (*dkg.Deal, *edealDesc, bool) {
@@ -663,6 +664,41 @@ func equivocate(s *dkgSess, b int, crossed bool) dkgHooks {
 		if crossed {
 			p.sid = sidDesc{dealer: s.members[b], members: s.members, commits: other, t: s.t}
 		}
+		d, desc := s.byzDeal(b, i, p)
+		return d, desc, true
+	}}
+}
+
+// Byzantine dealer b announces the threshold 2 but sends as many commitments as the honest dealers do;
+// the coefficients beyond the announced threshold differ between two halves of the honest members,
+// every share lies on the polynomial it was sent with, every session id is derived from the content
+// it travels with
+func surplusEquivocation(s *dkgSess, b int) dkgHooks {
+	L := s.t
+	if L < 3 {
+		L = 3
+	}
+	A := randCoeffs(s.rng, L, BnQ)
+	B := append([]*big.Int{}, A...)
+	for k := 2; k < L; k++ {
+		B[k] = new(big.Int).Mod(new(big.Int).Add(A[k], big.NewInt(int64(1+s.rng.Intn(1000)))), BnQ)
+	}
+	hon := s.honest()
+	groupB := map[int]bool{}
+	for k, i := range hon {
+		if k%2 == 1 {
+			groupB[i] = true
+		}
+	}
+	return dkgHooks{deal: func(i, j int) (*dkg.Deal, *edealDesc, bool) {
+		if j != b {
+			return nil, nil, true
+		}
+		mine := A
+		if groupB[i] {
+			mine = B
+		}
+		p := plainDesc{sid: sidDesc{dealer: s.members[b], members: s.members, commits: mine, t: 2}, idx: i, share: refEval(mine, i, BnQ), t: 2, commits: mine}
 		d, desc := s.byzDeal(b, i, p)
 		return d, desc, true
 	}}
